@@ -505,6 +505,9 @@ func (rr *runRec) barOptions(bi int) (mpb.BarFiller, []mpb.BarOption) {
 		} else {
 			k = atomic.AddInt64(&rr.renderK[bi], 1)
 		}
+		if rr.sc.NoK {
+			k = 0 // rows that do not change from frame to frame
+		}
 		return fmt.Sprintf("<%d|%d/%d|C%dA%d|%d>", s.ID, s.Current, s.Total, b2i(s.Completed), b2i(s.Aborted), k)
 	})
 	pre := []decor.Decorator{marker}
@@ -690,7 +693,20 @@ func (rr *runRec) doOp(client, idx int, op Op) {
 		res = rr.addBar(op.B)
 	case "write":
 		buf := []byte(op.S)
-		n, err := rr.p.Write(buf)
+		var n int
+		var err error
+		if k := int(op.N); k > 0 && k < len(buf) {
+			// one text handed over in two pieces that do not end at a line boundary
+			// (fmt.Fprint followed by Fprintln, io.Copy from a pipe ...)
+			n, err = rr.p.Write(buf[:k])
+			if err == nil && n == k {
+				var n2 int
+				n2, err = rr.p.Write(buf[k:])
+				n += n2
+			}
+		} else {
+			n, err = rr.p.Write(buf)
+		}
 		// io.Writer's contract: the callee must not retain the slice. Reuse it at
 		// once, as a caller with a scratch buffer would.
 		for i := range buf {
